@@ -4,7 +4,7 @@ from gens import cfg as GC
 from sim.core import FAILED
 
 ID = "C13"
-CASES = {"quick": 500, "thorough": 9000}
+CASES = {"quick": 3000, "thorough": 9000}
 RULE = ("seeded PDAs (<=3 states, <=3 stack symbols, <=6 transitions, pushes of 0-3 symbols, epsilon moves and "
         "stack-growing epsilon cycles, no final states, reserved fresh names as state/stack values) and seeded "
         "grammars x value-hash schedule x PYTHONHASHSEED; each conversion's result is extracted (start stack "
